@@ -31,17 +31,21 @@ var errInjectedRender = errors.New("verif: injected render failure")
 type monWriter struct {
 	calls   int
 	data    []byte
-	failAt  int  // 1-based call that fails (0 = never)
-	partial bool // the failing call reports half of the bytes as written
+	failAt  int // 1-based call that fails (0 = never)
+	mode    int // what the failing call reports as written: 0 nothing, 1 half of the bytes, 2 all of them
 }
 
 func (w *monWriter) Write(p []byte) (int, error) {
 	w.calls++
 	if w.calls == w.failAt {
-		if w.partial {
+		switch w.mode {
+		case 1:
 			n := len(p) / 2
 			w.data = append(w.data, p[:n]...)
 			return n, errInjectedWrite
+		case 2:
+			w.data = append(w.data, p...)
+			return len(p), errInjectedWrite
 		}
 		return 0, errInjectedWrite
 	}
@@ -69,6 +73,11 @@ var c10Entries = []entryPoint{
 	{"Statement.Render", func(f *jen.File, st *jen.Statement, g *jen.Group, w io.Writer) error { return st.Render(w) }, "stmt"},
 	{"Statement.RenderWithFile", func(f *jen.File, st *jen.Statement, g *jen.Group, w io.Writer) error {
 		return st.RenderWithFile(w, jen.NewFilePathName("some/pkg", "p"))
+	}, "stmt"},
+	{"Statement.RenderWithFile(NoFormat File)", func(f *jen.File, st *jen.Statement, g *jen.Group, w io.Writer) error {
+		nf := jen.NewFile("p")
+		nf.NoFormat = true
+		return st.RenderWithFile(w, nf)
 	}, "stmt"},
 	{"Group.Render", func(f *jen.File, st *jen.Statement, g *jen.Group, w io.Writer) error { return g.Render(w) }, "group"},
 	{"Group.RenderWithFile", func(f *jen.File, st *jen.Statement, g *jen.Group, w io.Writer) error {
@@ -147,6 +156,29 @@ func c10TreeFromProgram(ci corpusItem, damaged bool) *c10Tree {
 		} else {
 			return nil
 		}
+	}
+	return t
+}
+
+// c10EmptyTree: statement and group render nothing at all; a failing writer must still be reported.
+func c10EmptyTree(kind int) *c10Tree {
+	t := &c10Tree{desc: fmt.Sprintf("empty output (kind %d)", kind), valid: true}
+	t.build = func(int) (*jen.File, *jen.Statement, *jen.Group) {
+		f := jen.NewFile("p")
+		var st *jen.Statement
+		switch kind % 4 {
+		case 0:
+			st = jen.Null()
+		case 1:
+			st = jen.Add()
+		case 2:
+			st = jen.List(jen.Null(), nil)
+		default:
+			st = jen.Do(func(*jen.Statement) {})
+		}
+		var grp *jen.Group
+		jen.CustomFunc(jen.Options{}, func(g *jen.Group) { g.Add(jen.Null()); grp = g })
+		return f, st, grp
 	}
 	return t
 }
@@ -241,9 +273,9 @@ func c10Case(r *mon.Run, t *c10Tree, c mon.Case, dir string) {
 		r.Count("success."+ep.name, 1)
 		// cause: writer error on write k (every k of the clean run, full and partial)
 		for k := 1; k <= w.calls; k++ {
-			for _, partial := range []bool{false, true} {
+			for mode := 0; mode < 3; mode++ {
 				f, st, g = t.build(0)
-				fw := &monWriter{failAt: k, partial: partial}
+				fw := &monWriter{failAt: k, mode: mode}
 				err, p := guardErr(func() error { return ep.call(f, st, g, fw) })
 				faults++
 				r.Count("fault.writer_error."+ep.name, 1)
@@ -409,6 +441,10 @@ func c10Trees(r *mon.Run) []func() *c10Tree {
 		damaged := i%3 == 2
 		mk = append(mk, func() *c10Tree { return c10TreeFromProgram(ci, damaged) })
 	}
+	for k := 0; k < 4; k++ {
+		k := k
+		mk = append(mk, func() *c10Tree { return c10EmptyTree(k) })
+	}
 	for i, n := 0, r.Pick(120, 2500); i < n; i++ {
 		seed := mon.DeriveSeed(r.Seed, "C10/recipe", int64(i))
 		mk = append(mk, func() *c10Tree { return c10TreeFromRecipe(seed) })
@@ -417,7 +453,7 @@ func c10Trees(r *mon.Run) []func() *c10Tree {
 }
 
 func runC10(r *mon.Run) {
-	r.SetRule("fault matrix, enumerated completely for every tree: cause in {invalid composition -> formatter error; render error injected at node i (probe; first, last, middle, one seeded); writer error on write k = 1..W, full and partial; target is a directory; parent missing; path component is a file; name too long; /dev/full (ENOSPC on write); existing longer / empty / no target file} x entry point in {File.Render, File.Save, Statement.Render, Statement.RenderWithFile, Group.Render, Group.RenderWithFile}; trees: real programs (every third one damaged so that the formatter rejects it) and random grammar-biased compositions. non-trivial = every tree; distinct by tree")
+	r.SetRule("fault matrix, enumerated completely for every tree: cause in {invalid composition -> formatter error; render error injected at node i (probe; first, last, middle, one seeded); writer error on write k = 1..W reporting 0, half or all bytes written; target is a directory; parent missing; path component is a file; name too long; /dev/full (ENOSPC on write); existing longer / empty / no target file} x entry point in {File.Render, File.Save, Statement.Render, Statement.RenderWithFile, Group.Render, Group.RenderWithFile}; trees: real programs (every third one damaged so that the formatter rejects it) and random grammar-biased compositions. non-trivial = every tree; distinct by tree")
 	r.Assume("running as root, permission bits cannot make a directory unwritable; that cause is realised by the missing-parent / component-is-a-file / directory / name-too-long / /dev/full targets")
 	r.SetExhaustive(false)
 	dir := filepath.Join(mon.VerifDir, "bin", fmt.Sprintf("c10-%d", os.Getpid()))
